@@ -1,7 +1,6 @@
 import SignaloModel.Proofs.MedianRef7
 import SignaloModel.Proofs.MedianAccL
-import SignaloModel.Proofs.RegistryProofs
-import SignaloModel.Model.Spec
+import SignaloModel.Proofs.RunLemmas
 /-!
 C02 / C17 at the level the driver executes: `Registry.St.run` of the median filter against the
 executable specification `Spec.lowerMedian (Spec.window N history)`.
@@ -11,9 +10,6 @@ open SignaloModel
 open SignaloModel.Median (POrd TotalOrd DualOrd)
 
 variable {α : Type}
-
-/-- inputs / outputs of single-sample filters on the list-valued registry interface -/
-def sing (xs : List α) : List (List α) := xs.map (fun x => [x])
 
 theorem spec_lowerMedian_eq [POrd α] (w : List α) : Spec.lowerMedian w = Median.lowerMedian w := rfl
 
